@@ -272,6 +272,14 @@ impl Header {
         Ok(self)
     }
 
+    /// Used by the blob writer of the tools: a record that is written at another position
+    /// than the one it was read from must say so, because the storage reads it at `blob_offset`
+    pub(crate) fn with_blob_offset(mut self, blob_offset: u64) -> bincode::Result<Self> {
+        self.blob_offset = blob_offset;
+        self.update_checksum()?;
+        Ok(self)
+    }
+
     fn check_magic_byte(&self) -> Result<()> {
         if self.magic_byte == RECORD_MAGIC_BYTE {
             Ok(())
